@@ -386,6 +386,9 @@ pub fn placeholders(r: &mut Rng, ev: Ev) -> Vec<Ph> {
         (r.unit() * 20.0 - 10.0),
         (r.unit() * 2000.0 - 1000.0).round(),
         r.unit(),
+        // domain limits of the functions: largest factorial / exp / exp2 argument with a finite result, and neighbours;
+        // mid-range arguments that make loops long
+        20.0, 21.0, 33.0, 100.0, 150.0, 170.0, 171.0, 709.0, 710.0, 1023.0, 1024.0, 64.0, 1000.0,
     ];
     // NaNs are not one value: sign, quiet bit and payload are all part of "bit for bit"
     let nans: [u64; 4] = [0xfff8_0000_0000_0000, 0x7ff8_0000_0000_0001, 0x7ff0_0000_0000_0001, 0x7ffc_dead_beef_0001];
@@ -395,6 +398,7 @@ pub fn placeholders(r: &mut Rng, ev: Ev) -> Vec<Ph> {
             let mut v: Vec<i64> = vec![0, 1, -1, 2, 3, 7, 10, -5, 64, 1000, i64::MAX, i64::MIN, i64::MAX - 1, 1 << 53, (1 << 53) + 1, (1 << 53) - 1, 1 << 31, (1 << 32) + 1, 3002399751580331, -(1 << 53) - 1];
             v.push((r.next() % 2001) as i64 - 1000);
             v.push(r.next() as i64);
+            v.extend([20, 21, 33, 43, 44, 62, 63, 65, 100, 150, 170, 171, 255, 256, 4096]);
             v.into_iter().map(Ph::I64).collect()
         }
         Ev::Dec => {
@@ -413,6 +417,9 @@ pub fn placeholders(r: &mut Rng, ev: Ev) -> Vec<Ph> {
                 dec_bits(1, 28),
                 dec_bits(31415926535897932384626433, 25),
             ];
+            for k in [20i128, 27, 28, 33, 64, 100, 170, 1000] {
+                v.push(dec_bits(k, 0));
+            }
             v.push(dec_bits((r.next() % 200001) as i128 - 100000, (r.next() % 6) as u32));
             v.push(dec_bits((r.next() >> 4) as i128, (r.next() % 20) as u32));
             v.into_iter().map(Ph::Dec).collect()
@@ -423,6 +430,7 @@ pub fn placeholders(r: &mut Rng, ev: Ev) -> Vec<Ph> {
             v.push((f64::INFINITY, 1.0));
             v.push((r.unit() * 4.0 - 2.0, r.unit() * 4.0 - 2.0));
             v.push((r.unit(), 0.0));
+            v.extend([(-2.0, 0.0), (-8.0, 0.0), (64.0, 0.0), (100.0, 0.0), (170.0, 0.0), (171.0, 0.0), (709.0, 0.0), (0.0, 710.0), (-1.0, 1e-15)]);
             let mut out: Vec<Ph> = v.into_iter().map(|(a, b)| Ph::Cx(fb(a), fb(b))).collect();
             out.push(Ph::Cx(nans[0], 0));
             out.push(Ph::Cx(nans[1], fb(1.0)));
@@ -448,6 +456,12 @@ pub fn placeholders(r: &mut Rng, ev: Ev) -> Vec<Ph> {
             v.push(Ph::NumF(fb(4294967296.0)));
             v.push(Ph::NumI((r.next() % 2001) as i64 - 1000));
             v.push(Ph::NumF(fb(r.unit() * 20.0 - 10.0)));
+            for k in [20i64, 21, 33, 64, 100, 150, 170, 171, 1000] {
+                v.push(Ph::NumI(k));
+            }
+            for x in [170.0, 171.0, 709.0, 710.0, 100.0] {
+                v.push(Ph::NumF(fb(x)));
+            }
             v
         }
     }
@@ -994,6 +1008,35 @@ pub fn build_pool(seed: u64, repo: &str, sz: &PoolSizes, focus: Option<&PoolFocu
                 }
             }
         }
+        // operators the change names (postfix, infix): every small shape around them, over many placeholders - the
+        // grammar-directed part of the pool has them only with a couple of placeholders each
+        {
+            let evs: Vec<Ev> = if fc.evs.is_empty() { ALL_EV.to_vec() } else { fc.evs.clone() };
+            for t in fc.tokens.iter().filter(|t| !t.ends_with('(')) {
+                let op: &str = match t.as_str() {
+                    "SUPERSCRIPT" => "³",
+                    "LITERAL." | "@" | "π" | "pi" | "⌊" | "⌈" => continue,
+                    x => x,
+                };
+                let postfix = ["!", "%", "°", "rad", "³"].contains(&op);
+                let shapes: Vec<String> = if postfix {
+                    vec![
+                        format!("(@){}", op), format!("(@+1){}", op), format!("(@-1){}", op), format!("@{}+@{}", op, op), format!("@{}/(@-3){}", op, op),
+                        format!("2*@{}", op), format!("(@{}){}", op, op), format!("3{}+@{}", op, op), format!("@{}-1", op),
+                    ]
+                } else {
+                    vec![
+                        format!("(@){}@", op), format!("@{}2", op), format!("2{}@", op), format!("(@+1){}(@-1)", op), format!("@{}@{}@", op, op),
+                        format!("3{}@{}2", op, op), format!("@{}(0-@)", op), format!("(@{}3)+1", op),
+                    ]
+                };
+                for e in evs.iter() {
+                    for sh in shapes.iter() {
+                        add_expr(&mut pool, &mut r, *e, sh.clone(), "change_focus", 10);
+                    }
+                }
+            }
+        }
         let fnames: Vec<&str> = fc.tokens.iter().filter(|t| t.ends_with('(')).map(|t| t.as_str()).collect();
         if !fnames.is_empty() && fnames.len() <= 8 {
             let evs: Vec<Ev> = if fc.evs.is_empty() { ALL_EV.to_vec() } else { fc.evs.clone() };
@@ -1197,6 +1240,79 @@ pub fn build_pool(seed: u64, repo: &str, sz: &PoolSizes, focus: Option<&PoolFocu
                 let deep = e == Ev::Cx && r.chance(0.5);
                 fam.extend(relatives(&mut r, base, if deep { 8 } else { 4 }));
                 fam.truncate(if deep { 24 } else { 10 });
+                push_family(&mut pool, e, text, fam);
+            }
+        }
+        // (k) exact inverse cases: arguments at which the true result of an inverse function is a whole number
+        //     (perfect powers under root / sqrt, powers of the base under log / lb): a floating-point estimate lands a
+        //     hair below or above, and code that corrects (or forgets to correct) it is decided by the last bit.
+        //     The value and its two neighbours, as placeholder and as literal.
+        for e in ALL_EV {
+            let v = vocab(Some(e));
+            let has = |f: &str| v.unary.contains(&f) || v.binary.contains(&f);
+            let mk = |x: i64| -> Ph {
+                match e {
+                    Ev::F64 => Ph::F64((x as f64).to_bits()),
+                    Ev::I64 => Ph::I64(x),
+                    Ev::Dec => Ph::Dec(dec_bits(x as i128, 0)),
+                    Ev::Cx => Ph::Cx((x as f64).to_bits(), 0),
+                    Ev::Num => Ph::NumI(x),
+                }
+            };
+            let mut cases: Vec<(String, Vec<i64>)> = Vec::new();
+            for n in [2u32, 3, 4, 5, 7] {
+                let mut vals: Vec<i64> = Vec::new();
+                for m in [2i64, 3, 4, 5, 6, 7, 9, 10, 11, 12, 100, 1000, 46341, 2097152] {
+                    if let Some(p) = m.checked_pow(n) {
+                        if p < (1i64 << 62) {
+                            vals.extend([p, p - 1, p + 1]);
+                        }
+                    }
+                }
+                if has("root") {
+                    cases.push((format!("root({},@)", n), vals.clone()));
+                    cases.push((format!("root({},@)+1", n), vals.clone()));
+                    for p in vals.iter().step_by(3).take(6) {
+                        cases.push((format!("root({},{})", n, p), vec![0]));
+                    }
+                }
+                if n == 2 && has("sqrt") {
+                    vals.extend([(1i64 << 53) + 2, 9007199515875289, 4611686014132420609]);
+                    cases.push(("sqrt(@)".to_string(), vals.clone()));
+                    cases.push(("sqrt(@)*2".to_string(), vals.clone()));
+                }
+                cases.push((format!("@^(1/{})", n), vals.clone()));
+            }
+            for b in [2i64, 3, 10] {
+                let mut vals: Vec<i64> = Vec::new();
+                let mut p = 1i64;
+                for _k in 0..40 {
+                    p = match p.checked_mul(b) {
+                        Some(x) => x,
+                        None => break,
+                    };
+                    vals.extend([p, p - 1, p + 1]);
+                }
+                if has("log") {
+                    cases.push((format!("log(@,{})", b), vals.clone()));
+                }
+                if b == 2 && has("lb") {
+                    cases.push(("lb(@)".to_string(), vals.clone()));
+                }
+            }
+            for (text, vals) in cases {
+                let mut fam: Vec<Ph> = Vec::new();
+                // a sample of the values: every family keeps a few exact cases and their neighbours
+                let mut idx: Vec<usize> = (0..vals.len() / 3).collect();
+                r.shuffle(&mut idx);
+                for i in idx.into_iter().take(4) {
+                    fam.extend([mk(vals[3 * i]), mk(vals[3 * i + 1]), mk(vals[3 * i + 2])]);
+                }
+                if fam.is_empty() {
+                    fam.push(mk(vals.first().copied().unwrap_or(0)));
+                    fam.push(mk(1));
+                }
+                fam.dedup();
                 push_family(&mut pool, e, text, fam);
             }
         }
